@@ -43,6 +43,8 @@ Dispatch(r, op, a) ==
     [] op = "verify_share" -> VerifyShare(r, a.id, a.Y, a.z, a.pkg, a.vk)
     [] op = "aggregate"    -> Aggregate(r, a.pkg, a.shares, a.pkp, a.mode)
     [] op = "verify"       -> Verify(r, a.vk, a.msg, a.sig)
+    [] op = "dkg1"         -> DkgPart1(r, a.id, a.n, a.t, a.a0, a.coeffs, a.k, a.refresh)
+    [] op = "dkg2"         -> DkgPart2(r, a.sec, a.r1, a.refresh)
 
 RECURSIVE Outcomes(_,_,_)
 Outcomes(r, op, a) ==
@@ -139,7 +141,7 @@ ActCommit(nonh, commh, kph, b1, b2) ==
                                           D |-> res.D, E |-> res.E]
                     ELSE [ty |-> "comm", D |-> res.D, E |-> res.E]],
                  [op |-> "commit", out_non |-> nonh, out_comm |-> commh, kp |-> kph,
-                  rng |-> <<Rand32(b1), Rand32(b2)>>,
+                  rng32 |-> <<b1, b2>>,
                   expect |-> [ok |-> TRUE, hiding |-> res.hiding, binding |-> res.binding,
                               D |-> res.D, E |-> res.E]])
 
@@ -149,6 +151,8 @@ TamperedComm(c, what, d) ==
   CASE what = "D" -> [c EXCEPT !.D = Add(@, d)]
     [] what = "E" -> [c EXCEPT !.E = Add(@, d)]
     [] what = "swap" -> [c EXCEPT !.D = c.E, !.E = c.D]
+    [] what = "identD" -> [c EXCEPT !.D = 0]
+    [] what = "identE" -> [c EXCEPT !.E = 0]
 
 ActTamperComm(out, h, what, d) ==
   /\ Has(h)
@@ -186,17 +190,20 @@ ActTamperShare(out, h, how, d) ==
   /\ Finish("tamper_share", [ok |-> TRUE], (out :> [ty |-> "zs", z |-> TamperedZ(env[h].z, how, d)]),
             [op |-> "tamper_share", out |-> out, src |-> h, how |-> how, d |-> d])
 
-\* verify_signature_share(id, pkp.verifying_shares[vsid], share, pkg, pkp.verifying_key)
-ActVerifyShare(id, vsid, pkph, zh, pkgh) ==
-  /\ Has(pkph) /\ Has(zh) /\ Has(pkgh) /\ vsid \in DOMAIN env[pkph].vs
+\* verify_signature_share(id, pkp.verifying_shares[vsid], share, pkg, vk of vkh)
+ActVerifyShareK(id, vsid, pkph, zh, pkgh, vkh) ==
+  /\ Has(pkph) /\ Has(zh) /\ Has(pkgh) /\ Has(vkh) /\ vsid \in DOMAIN env[pkph].vs
   /\ \E o \in Outcomes(ro, "verify_share",
                        [id |-> id, Y |-> env[pkph].vs[vsid], z |-> env[zh].z,
-                        pkg |-> env[pkgh], vk |-> env[pkph].vk]) :
+                        pkg |-> env[pkgh], vk |-> env[vkh].vk]) :
        LET res == o[2] IN
        /\ ro' = o[1]
        /\ Finish("verify_share", res, << >>,
                  [op |-> "verify_share", id |-> id, vsid |-> vsid, pkp |-> pkph, share |-> zh, pkg |-> pkgh,
+                  vk |-> vkh,
                   expect |-> IF res.ok THEN [ok |-> TRUE] ELSE ErrProj(res)])
+
+ActVerifyShare(id, vsid, pkph, zh, pkgh) == ActVerifyShareK(id, vsid, pkph, zh, pkgh, pkph)
 
 \* aggregate_custom(pkg, slots : id -> share handle, pkp, mode)
 ActAggregate(out, pkgh, slots, pkph, mode) ==
@@ -222,6 +229,102 @@ ActVerify(pkph, msg, sigh) ==
        /\ Finish("verify", res, << >>,
                  [op |-> "verify", pkp |-> pkph, msg |-> msg, sig |-> sigh,
                   expect |-> IF res.ok THEN [ok |-> TRUE] ELSE ErrProj(res)])
+
+
+-----------------------------------------------------------------------------
+(* keys/dkg.rs, keys/refresh.rs (distributed) *)
+
+KpObj(k)   == [ty |-> "kp"] @@ k
+PkpObj(p)  == [ty |-> "pkp"] @@ p
+KpProj(k)  == [id |-> k.id, share |-> k.share, vs |-> k.vs, vk |-> k.vk, min |-> k.min]
+PkpProj(p) == [vs |-> Pairs(p.vs), vk |-> p.vk, min |-> p.min]
+
+\* number of draws part1 makes: the secret (random_nonzero), t-1 coefficients, the proof nonce
+Dkg1Draws(n, t) == IF ParamErr(n, t) # "none" THEN 0 ELSE t - 1
+
+\* part1 / refresh_dkg_part1.  a0 and k are the (non-zero) results of random_nonzero.
+ActDkg1(sech, pkgh, id, n, t, a0, coeffs, k, refresh) ==
+  /\ Len(coeffs) = Dkg1Draws(n, t)
+  /\ \E o \in Outcomes(ro, "dkg1", [id |-> id, n |-> n, t |-> t, a0 |-> a0, coeffs |-> coeffs, k |-> k,
+                                    refresh |-> refresh]) :
+       LET res == o[2]
+           draws == IF ParamErr(n, t) # "none" THEN << >>
+                    ELSE (IF refresh THEN << >> ELSE <<Draw2(a0)>>) \o Draws2(coeffs)
+                         \o (IF res.ok \/ res.err # "GroupError" THEN <<Draw2(k)>> ELSE <<Draw2(k)>>)
+       IN
+       /\ ro' = o[1]
+       /\ Finish("dkg1", res,
+                 IF res.ok THEN
+                   [h \in {sech, pkgh} |->
+                      IF h = sech THEN [ty |-> "r1s", id |-> id, coeffs |-> res.coeffs, commit |-> res.commit,
+                                        min |-> res.min, max |-> res.max]
+                      ELSE [ty |-> "r1p", commit |-> res.commit, R |-> res.R, mu |-> res.mu]]
+                 ELSE << >>,
+                 [op |-> "dkg1", out_sec |-> sech, out_pkg |-> pkgh, id |-> id, n |-> n, t |-> t,
+                  refresh |-> refresh, rng |-> draws,
+                  expect |-> IF res.ok THEN [ok |-> TRUE, id |-> id, coeffs |-> res.coeffs, commit |-> res.commit,
+                                            sec_commit |-> res.commit, R |-> res.R, mu |-> res.mu,
+                                            min |-> res.min, max |-> res.max]
+                             ELSE ErrProj(res)])
+
+\* adversary: a round-one package with one field altered
+TamperedR1(p, what, k, d) ==
+  CASE what = "R"      -> [p EXCEPT !.R = Add(@, d)]
+    [] what = "mu"     -> [p EXCEPT !.mu = Add(@, d)]
+    [] what = "commit" -> [p EXCEPT !.commit[k] = Add(@, d)]
+    [] what = "trunc"  -> [p EXCEPT !.commit = SubSeq(@, 1, Len(@) - 1)]
+    [] what = "extend" -> [p EXCEPT !.commit = Append(@, d)]
+
+ActTamperR1(out, h, what, k, d) ==
+  /\ Has(h)
+  /\ ro' = ro
+  /\ Finish("tamper_r1", [ok |-> TRUE], (out :> TamperedR1(env[h], what, k, d)),
+            [op |-> "tamper_r1", out |-> out, src |-> h, what |-> what, k |-> k, d |-> d])
+
+ActTamperR2(out, h, d) ==
+  /\ Has(h)
+  /\ ro' = ro
+  /\ Finish("tamper_r2", [ok |-> TRUE], (out :> [env[h] EXCEPT !.share = Add(@, d)]),
+            [op |-> "tamper_r2", out |-> out, src |-> h, d |-> d])
+
+\* part2 / refresh_dkg_part2: r1 : sender id -> handle; round-two packages are
+\* bound to <<r2n, recipient>>
+ActDkg2(sech2, r2n, sech, r1, refresh) ==
+  /\ Has(sech) /\ \A l \in DOMAIN r1 : Has(r1[l])
+  /\ \E o \in Outcomes(ro, "dkg2", [sec |-> env[sech], r1 |-> [l \in DOMAIN r1 |-> env[r1[l]]],
+                                    refresh |-> refresh]) :
+       LET res == o[2] IN
+       /\ ro' = o[1]
+       /\ Finish("dkg2", res,
+                 IF res.ok THEN
+                   [h \in {sech2} \cup {<<r2n, l>> : l \in DOMAIN res.r2} |->
+                      IF h = sech2 THEN [ty |-> "r2s", id |-> res.id, commit |-> res.commit, share |-> res.own,
+                                         min |-> res.min, max |-> res.max]
+                      ELSE [ty |-> "r2p", share |-> res.r2[h[2]]]]
+                 ELSE << >>,
+                 [op |-> "dkg2", out_sec |-> sech2, out_r2 |-> r2n, sec |-> sech, r1 |-> Pairs(r1),
+                  refresh |-> refresh,
+                  expect |-> IF res.ok THEN [ok |-> TRUE, id |-> res.id, own |-> res.own, r2 |-> Pairs(res.r2),
+                                            sec_commit |-> res.commit, min |-> res.min, max |-> res.max]
+                             ELSE ErrProj(res)])
+
+\* part3 / refresh_dkg_shares
+ActDkg3(kph, pkph, sech2, r1, r2, refresh, opkph, okph) ==
+  /\ Has(sech2) /\ (\A l \in DOMAIN r1 : Has(r1[l])) /\ (\A l \in DOMAIN r2 : Has(r2[l]))
+  /\ refresh => Has(opkph) /\ Has(okph)
+  /\ LET r1v == [l \in DOMAIN r1 |-> env[r1[l]]]
+         r2v == [l \in DOMAIN r2 |-> env[r2[l]]]
+         res == IF refresh THEN RefreshDkgShares(env[sech2], r1v, r2v, env[opkph], env[okph])
+                ELSE DkgPart3(env[sech2], r1v, r2v)
+     IN /\ ro' = ro
+        /\ Finish("dkg3", res,
+                  IF res.ok THEN [h \in {kph, pkph} |-> IF h = kph THEN KpObj(res.kp) ELSE PkpObj(res.pkp)]
+                  ELSE << >>,
+                  [op |-> "dkg3", out_kp |-> kph, out_pkp |-> pkph, sec |-> sech2, r1 |-> Pairs(r1),
+                   r2 |-> Pairs(r2), refresh |-> refresh]
+                  @@ (IF refresh THEN [old_pkp |-> opkph, old_kp |-> okph] ELSE << >>)
+                  @@ [expect |-> IF res.ok THEN [ok |-> TRUE, kp |-> KpProj(res.kp), pkp |-> PkpProj(res.pkp)]
+                                 ELSE ErrProj(res)])
 
 -----------------------------------------------------------------------------
 (* emission of a finished behaviour as one replayable script *)
